@@ -849,11 +849,15 @@ class RouterAnalysis:
             self.add('CR.1', ad, f'{common._bare(lockf["ctype"])}: lock()/lock_shared() forward to the exclusive / shared operation of the wrapped lock', lockf['loc'], '' if ad else 'the adapter maps lock()/lock_shared() to the wrong operation', key='CR.1|adapter')
         ltype = common._bare(lockf['ctype'])
         def own(t): return strip_targs(t[0]).startswith(CSR) and t[4] == ltype        # the router's lock field, or the handle's reference / pointer to it (flow: CR.2)
+        ftype_ = {(c_['fullname'], f_['name']): f_['ctype'] for c_ in F.classes.values() for f_ in c_['fields']}
         per_root = {}
         for a in eng.accesses:
             g = strip_targs(a.root[1])
             if not (g.startswith(CSR)): continue
-            if not strip_targs(a.cls).startswith(shared_cls): continue
+            own_state = strip_targs(a.cls) == CSR and a.field not in (lname, 'm_router') and not common.rw_lock_type(F, ftype_.get((a.cls, a.field), ''))
+            # the concurrent router's own members (a cache, a counter kept beside the router) are state of the operation like the router's:
+            # atomic or not, what an operation does to them belongs inside its critical section
+            if not strip_targs(a.cls).startswith(shared_cls) and not own_state: continue
             if not a.path or a.path[0] in ('local', 'tmp', '?', 'static', 'param', 'global') or any(isinstance(x, str) and x.startswith('?') for x in a.path): continue
             per_root.setdefault(g, []).append(a)
         self.n_csr_access = sum(len(v) for v in per_root.values())
